@@ -399,22 +399,24 @@ func (fsm *FSM) Restore(snap io.ReadCloser) error {
 	if err := os.RemoveAll(irclogPath); err != nil {
 		log.Fatal(err)
 	}
-	var err error
-	ircStore, err = raftstore.NewLevelDBStore(irclogPath, true, *useProtobuf)
+	newStore, err := raftstore.NewLevelDBStore(irclogPath, true, *useProtobuf)
 	if err != nil {
 		log.Fatal(err)
 	}
-	fsm.ircstore = ircStore
+	fsm.ircstore = newStore
 	if err := outputStream.Close(); err != nil {
 		glog.Error(err)
 	}
 
-	ircServer = ircserver.NewIRCServer(*network, time.Now())
-	outputStream, err = outputstream.NewOutputStream(*raftDir)
+	newServer := ircserver.NewIRCServer(*network, time.Now())
+	newOutput, err := outputstream.NewOutputStream(*raftDir)
 	if err != nil {
 		log.Fatal(err)
 	}
-	fsm.ReplaceState(ircServer, ircStore, outputStream)
+	// ircServer, ircStore and outputStream are read by other goroutines
+	// (metrics, session expiration), so swap them under stateMu.
+	replaceState(newServer, newStore, newOutput)
+	fsm.ReplaceState(newServer, newStore, newOutput)
 	// XXX(1.0): remove this conditional, all snapshots are protobuf-encoded now
 	b := bufio.NewReader(snap)
 	first, err := b.Peek(1)
